@@ -33,6 +33,7 @@ type Scenario struct {
 	TimerRelease int
 	DelayThread  int // 0 = none (the main harness thread is never delayed)
 	DelayUntil   int
+	ChanCap      int // > 0: buffered channels of the code under test are scaled down to this capacity
 	Build        func() (main func(), observer func(step int), verdict func(s *vs.Sched) Outcome)
 }
 
@@ -142,6 +143,7 @@ type Explorer struct {
 func RunOnce(sc Scenario, prefix []int) (*vs.Sched, Outcome) {
 	main, obs, verdict := sc.Build()
 	vs.TimerRelease = sc.TimerRelease
+	vs.ChanCap = sc.ChanCap
 	vs.DelayThread, vs.DelayUntil = -1, 0
 	if sc.DelayThread > 0 {
 		vs.DelayThread, vs.DelayUntil = sc.DelayThread, sc.DelayUntil
